@@ -261,6 +261,10 @@ def main(argv=None):
     ap.add_argument('--replay-json')
     ap.add_argument('--runs', type=int)
     args = ap.parse_args(argv)
+    if args.replay:
+        args.replay = os.path.abspath(args.replay)
+    if args.replay_json:
+        args.replay_json = os.path.abspath(args.replay_json)
     if args.replay_json:
         return cmd_replay_json(args.replay_json)
     if args.prop not in PROPS:
